@@ -61,8 +61,10 @@ static std::string expectValue(const RT &c) {
     }
 }
 
+static std::string replayOf(const RT &c);
 static std::string roundTrip(const RT &c, Inst *F = nullptr, Inst *P = nullptr) {
     std::unique_ptr<Inst> f0, p0;
+    armCase("sub=one\n" + replayOf(c));   // a sanitizer abort inside the library dumps this case
     if (!F) {
         InstCfg fc; fc.bufLen = 32; fc.queueLen = 4;
         Cmd q; q.pattern = "Q?"; q.script.items.push_back(c.item); fc.cmds.push_back(q);
